@@ -83,7 +83,7 @@ def _load_registry():
                     if group not in sizes:
                         raise Undecided(f"{name}: @sizes for group {group} missing")
                     for size, tier in sizes[group]:
-                        if pending["tier"] == "thorough":      # per-harness override: too expensive for the quick tier at any size
+                        if pending["tier"] == "thorough" and tier == "quick":      # per-harness override: too expensive for the quick tier at any size
                             tier = "thorough"
                         out.append(Harness(file, module, group, size, fn, pending["props"], tier, pending["spin"], asserts))
                         out[-1].jobs = file_jobs if tier == "quick" else file_jobs_thorough
@@ -98,6 +98,10 @@ def select(pid, tier):
     hs = [h for h in load_registry() if pid in h.props]
     if tier == "quick":
         hs = [h for h in hs if h.tier == "quick"]
+    elif tier != "extended":
+        # `extended` instantiations (the pooled / log Multi channels beyond BUFFER_SIZE=2, MAX_STREAMS=1..2: 20-40 GB and up to an hour of CBMC
+        # each) are registered but only run with --tier extended
+        hs = [h for h in hs if h.tier in ("quick", "thorough")]
     return hs
 
 
